@@ -8,6 +8,12 @@ typedef struct error_context_s {
     object_t *save_command_giver; 
     svalue_t *save_sp;
     struct error_context_s *save_context;
+    /* re-entrancy guards of simulate.c: an error or a throw() that unwinds to
+     * this context puts them back to what they were when it was saved */
+    object_t *save_restrict_destruct;
+    int save_num_objects_this_thread;
+    int save_illegal_sentence_action;
+    char *save_last_verb;
 } error_context_t;
 
 #define NULL_ERROR_CONTEXT       0
